@@ -3,6 +3,7 @@
 package c06
 
 import (
+	"errors"
 	"fmt"
 	"os"
 	"runtime"
@@ -25,6 +26,8 @@ import (
 )
 
 const startMs = 1_900_000_000_000
+
+var errBusiness = errors.New("business error")
 
 type Interp struct {
 	clk     *vh.Clock
@@ -163,6 +166,10 @@ func parseRule(s string) *hotspot.Rule {
 	switch p[1] {
 	case "c":
 		r.MetricType = hotspot.Concurrency
+	case "ct":
+		// legal and documented as irrelevant: ControlBehavior of a Concurrency rule
+		r.MetricType = hotspot.Concurrency
+		r.ControlBehavior = hotspot.Throttling
 	case "q":
 		// a QPS rule that never blocks within a case (the clock does not move): C05 is about those
 		r.MetricType = hotspot.QPS
@@ -192,7 +199,7 @@ func parseRule(s string) *hotspot.Rule {
 			r.SpecificItems[parseVal(kv[0])] = vh.I(kv[1])
 		}
 	}
-	if p[1] != "c" {
+	if p[1] != "c" && p[1] != "ct" {
 		r.SpecificItems = map[interface{}]int64{}
 	}
 	return r
@@ -274,6 +281,20 @@ func (it *Interp) Step(t []string, op string) string {
 			return "err"
 		}
 		return ""
+	case "reload":
+		rules := make([]*hotspot.Rule, 0, len(t)-1)
+		for _, s := range t[1:] {
+			rules = append(rules, parseRule(s))
+		}
+		if _, err := hotspot.LoadRules(rules); err != nil {
+			return "err"
+		}
+		return ""
+	case "trace":
+		if e, ok := it.entries[t[1]]; ok {
+			sentinel.TraceError(e, errBusiness)
+		}
+		return ""
 	case "flowblock":
 		it.fb = append(it.fb, t[1])
 		rules := make([]*flow.Rule, 0, len(it.fb))
@@ -336,7 +357,11 @@ func (it *Interp) Step(t []string, op string) string {
 		return it.finish(t[1])
 	case "exit":
 		if e, ok := it.entries[t[1]]; ok {
-			e.Exit()
+			if len(t) > 2 && t[2] == "err" {
+				e.Exit(base.WithError(errBusiness))
+			} else {
+				e.Exit()
+			}
 			delete(it.entries, t[1])
 		}
 		return ""
